@@ -11,3 +11,13 @@ import "sync/atomic"
 func (lim *TokenLimiter) VerifAlive() bool {
 	return atomic.LoadUint32(&lim.redisAlive) == 1
 }
+
+// VerifMonitoring reports whether the recovery goroutine (waitForRedis) of an outage is
+// still registered.  After a recovery the harness waits for VerifAlive && !VerifMonitoring
+// so that the next injected outage is seen by the limiter as a new one (startMonitor is a
+// no-op while the previous monitor has not signed off).  Synchronisation only.
+func (lim *TokenLimiter) VerifMonitoring() bool {
+	lim.rescueLock.Lock()
+	defer lim.rescueLock.Unlock()
+	return lim.monitorStarted
+}
